@@ -3,8 +3,9 @@ CONSTANTS
   NK = 3
   MaxT = 3
   Files <- TombThorough
-  MaxOps = 4
+  MaxOps = 5
   CrashPts <- CrashSome
+  KeepPts <- KeepSome
   KeepHist = TRUE
   Mode = "tomb"
 INVARIANTS EmitMaximal
